@@ -6,6 +6,46 @@ HERE = os.path.dirname(os.path.dirname(os.path.abspath(__file__)))
 ALL = ["C%02d" % i for i in range(1, 19)]
 
 CHECKS = {
+    "C01": dict(
+        technique="runtime history monitor: every live object vs a fresh rebuild of its own construction, after call forests and under step reordering",
+        text="Deterministic prime/branch-A/branch-B scenarios for every builder-decorated method found in the live modules (x6 "
+             "dialect classes) and seeded call forests with branching and sharing are executed against the real package; "
+             "after each history every live object must fingerprint (6 contexts x inline/parameterised, str, metadata) like a "
+             "fresh rebuild of its own sub-program, also under a dependency-respecting reordering of the steps. Held on the "
+             "executions observed.",
+        note="Observation = the fingerprint function; programs use explicit aliases for subquery/self-join arguments "
+             "(auto-alias exemption checked by dedicated scenarios).",
+        ref="DESIGN.md section 4 C01"),
+    "C02": dict(
+        technique="runtime monitors over render histories, child interpreters with different PYTHONHASHSEED, and threads with sys.monitoring yield injection",
+        text="Random render histories must repeat their first output per (object, op, context) key and leave every live object "
+             "equal to a never-rendered twin; digests of the corpus must agree across child interpreters with different hash "
+             "seeds; concurrent renders of one shared object under 1us switch interval and injected yields must equal the "
+             "single-threaded baseline. Held on the histories, seeds and interleavings observed.",
+        note="Hash seeds and interleavings are sampled; the evidence reports switches observed inside overlapping render windows.",
+        ref="DESIGN.md section 4 C02"),
+    "C05": dict(
+        technique="differential tokenisation with reference dialect lexers; sqlite3 engine evaluates emitted literals",
+        text="Complete product value-position x value-class x dialect plus seeded hostile random values: the statement rendered "
+             "with the value and with a marker must tokenise identically except for one literal token that decodes to the "
+             "value; for SQLite the engine evaluates the emitted literal. Held on the cases observed.",
+        note="Trusted base for MySQL/PostgreSQL/SQL Server/Oracle is the reference lexer (self-tested, cross-checked on SQLite).",
+        ref="DESIGN.md section 4 C05"),
+    "C06": dict(
+        technique="reference precedence parser reads the rendering back; sqlite3 evaluates rendering vs fully parenthesised reference",
+        text="All parent/position/child triples, all depth-2 compositions, sampled (thorough: all) depth-3 compositions and "
+             "seeded random trees are built with the real operators, rendered under six contexts in bare/select/WHERE "
+             "position, parsed by the reference Pratt parser and compared modulo the allowed re-associations; SQLite "
+             "corroborates values. Held on the trees observed, with two recorded known findings.",
+        note="Standard precedence table with lenient left-associative comparisons; SQLite semantics for value corroboration.",
+        ref="DESIGN.md section 4 C06"),
+    "C15": dict(
+        technique="runtime history monitor (C01) over objects duplicated by copy/deepcopy/pickle",
+        text="Objects from call forests and fixed graphs (schema chains, NOT wrappers, CTEs, nested subqueries, set operations) "
+             "are duplicated with each mechanism; duplicates must fingerprint like the original and both sides stay under the "
+             "C01 rebuild monitor while further builder calls are applied to either. Held on the executions observed.",
+        note="Same observation function as C01.",
+        ref="DESIGN.md section 4 C15"),
     "C18": dict(
         technique="runtime oracle: literal read back by an independent reader over an exhaustive digit-pattern sweep",
         text="Every Interval of the exhaustive 6^7 digit-pattern product (x sign), quarters/weeks and seeded random large "
